@@ -545,6 +545,8 @@ package mqtt
 // the registry's invariant (a registered client is one newClient built, registered under its own id), assumed here, not proved
 //@ axiom r1 ==> validCl(r0) && r0.State.Subscriptions != nil && r0.ID == id
 
+// (trusted: the index operations' frame is "every map[string]Subscription", which includes the session's own list and the
+// copy this function iterates over, so its two loops cannot be verified against Unsubscribe's contract as it stands)
 // verif:func mqtt.Server.UnsubscribeClient trusted
 //@ modifies subsview, nsubs, nev, evkind, evcl, evid, all(system.Info.Subscriptions), entries(cl.State.Subscriptions.internal)
 //@ ensures len(cl.State.Subscriptions.internal) == 0
@@ -552,9 +554,16 @@ package mqtt
 //@ ensures !old(cl.State.isTakenOver.abool) ==> (forall f string :: !subsview[cl.ID][f])
 //@ ensures old(cl.State.isTakenOver.abool) ==> subsview == old(subsview)
 
-// verif:func mqtt.Client.ClearInflights trusted
-//@ modifies entries(cl.State.Inflight.internal), nev, evkind, evcl, evid, all(system.Info.Inflight)
-//@ ensures len(cl.State.Inflight.internal) == 0 && (forall k uint16 :: !has(cl.State.Inflight.internal, k))
+// verif:func mqtt.Client.ClearInflights
+//@ requires cl != nil && cl.State.Inflight != nil && cl.ops != nil && cl.ops.hooks != nil && cl.ops.info != nil
+//@ modifies entries(cl.State.Inflight.internal), nev, evkind, evcl, evid, all(system.Info.Inflight), all(lheld)
+//@ ensures C15-nothing-of-the-session-stays-in-flight: forall k uint16 :: !has(cl.State.Inflight.internal, k)
+//@ ensures C15-the-in-flight-table-is-empty: len(cl.State.Inflight.internal) == 0
+// verif:loop mqtt.Client.ClearInflights 1
+//@ invariant cl.State.Inflight == old(cl.State.Inflight) && cl.State.Inflight.internal == old(cl.State.Inflight.internal) && cl.ops == old(cl.ops) && cl.ops.hooks != nil && cl.ops.info != nil && cl.State.Inflight.RWMutex.lheld == 0
+//@ invariant removed-so-far: forall k uint16 :: (exists j int :: 0 <= j && j <= rangeindex && rangeslice[j].PacketID == k) ==> !has(cl.State.Inflight.internal, k)
+//@ invariant nothing-added: forall k uint16 :: has(cl.State.Inflight.internal, k) ==> old(has(cl.State.Inflight.internal, k))
+//@ invariant the-list-is-the-table: forall k uint16 :: old(has(cl.State.Inflight.internal, k)) ==> (exists j int :: 0 <= j && j < len(rangeslice) && rangeslice[j].PacketID == k)
 
 // verif:func mqtt.Inflight.Clone fresh
 //@ requires C32-lock-not-held-by-this-goroutine: i.RWMutex.lheld == 0
@@ -1206,6 +1215,7 @@ package mqtt
 //@ axiom r0 ==> nsubs == old(nsubs) - 1
 //@ axiom !r0 ==> nsubs == old(nsubs)
 //@ axiom !subsview[client][filter]
+//@ axiom forall c string, f string :: (c != client || f != filter) ==> (subsview[c][f] <==> old(subsview[c][f]))
 //@ ensures C31-unsubscribe-reports-whether-the-subscription-existed: !isShare(filter) && r0 ==> old(has(pathNode(filter, 0).subscriptions.internal, client))
 //@ ensures C31-unsubscribe-of-a-shared-subscription-reports-whether-it-existed: isShare(filter) && r0 ==> old(sharedHas(pathNode(filter, 2).shared, lvl1(filter), client))
 //@ ensures C31-other-members-of-the-share-groups-keep-their-subscriptions: isShare(filter) && pathNode(filter, 2) != nil ==> (forall g string, c string :: (g != lvl1(filter) || c != client) ==> (sharedHas(pathNode(filter, 2).shared, g, c) <==> old(sharedHas(pathNode(filter, 2).shared, g, c))))
@@ -1339,7 +1349,7 @@ package mqtt
 //@ ensures r0 != nil && fresh(r0) && r0 != cl.internal
 //@ ensures forall k string :: (has(r0, k) <==> has(cl.internal, k)) && (has(r0, k) ==> r0[k] == cl.internal[k])
 // the registry's invariant (every registered client is a client newClient built), assumed here, not proved
-//@ axiom forall k string :: has(cl.internal, k) ==> cl.internal[k] != nil && cl.internal[k].State.Inflight != nil && cl.internal[k].State.Subscriptions != nil
+//@ axiom forall k string :: has(cl.internal, k) ==> cl.internal[k] != nil && cl.internal[k].State.Inflight != nil && cl.internal[k].State.Subscriptions != nil && cl.internal[k].ops != nil && cl.internal[k].ops.hooks != nil && cl.internal[k].ops.info != nil
 // verif:loop mqtt.Clients.GetAll 1
 //@ invariant copy: m != nil && fresh(m) && m != cl.internal && rangemap1 == cl.internal && cl.RWMutex.lheld == 1
 //@ invariant source-untouched: forall k string :: dom0_1[k] <==> has(cl.internal, k)
